@@ -94,12 +94,13 @@ PROPS['C17'] = {
     'units': ['C17/rank_select'],
     'kani': [],
     'oracle': 'C17',
-    'decided': ['superblocks(): entry q == number of t-bits before bit q*s, First exactly at the start of a run',
-                'rank_1(i) == Some(#ones in 0..=i) iff i < n', 'select_x: Some(p) => bit p matches and exactly j matches in 0..=p; None => j == 0 or j exceeds the number of matching real bits (padding never selected)',
-                'SuperblockRank::cmp is the order by (value, variant)'],
-    'undecided': ['RankSelect::new, rank_0, select_0/select_1 wrappers (closures passed to select_x) not yet under contract', 'WaveletMatrix'],
-    'trusted': ['bv::BitVec<u8> model (bits, get_block with zero padding, block_len, len, get_bit)', 'u8::count_ones/count_zeros specs', '[T]::binary_search spec', 'ceil_div8 stub for the float ceil (exact below 2^53)'],
-    'level_text': 'Verus proves the superblock tables, rank_1 and the whole of select_x (both bit values, padding-safe) against naive counting over a bit-vector model.',
+    'decided': ['RankSelect::new builds both superblock tables (entry q == number of t-bits before bit q*s, First exactly at the start of a run) for every k >= 1 and bit vector',
+                'rank_1(i) == Some(#ones in 0..=i) iff i < n; rank_0(i) == Some(#zeros in 0..=i) iff i < n; rank == rank_1; get',
+                'select_1(j) / select_0(j) / select: Some(p) => bit p has the selected value and exactly j such bits lie in 0..=p; None => j == 0 or j exceeds the number of such REAL bits (padding of the last byte is never selected) - proved through select_x generically in the two closures, for both bit values',
+                'hence rank and select are mutually inverse (lemma over the two contracts)', 'SuperblockRank::cmp is the order by (value, variant)'],
+    'undecided': ['WaveletMatrix (covered only by the bounded stand-in)'],
+    'trusted': ['bv::BitVec<u8> model (bits, get_block with zero padding, block_len, len, get_bit)', 'u8::count_ones/count_zeros specs', '[T]::binary_search spec over an uninterpreted sort key equated (one admitted axiom) with the key the real cmp is proved to implement', 'ceil_div8 stub for the float ceil (exact below 2^53)'],
+    'level_text': 'Verus proves RankSelect end to end (constructor, both rank functions, both select functions incl. the padding corner) against naive counting over a bit-vector model; the wavelet matrix is not decided by contracts.',
     'level_note': 'Trusted: bv::BitVec model, popcount and binary_search std specs, float ceil stub; wavelet matrix undecided.',
 }
 
